@@ -19,7 +19,8 @@ theorem htlc_translated_pinned : Irismod.Gen.PureHtlc.translated =
      "IncCurrent_supply_TimeLimitedCurrentSupply_1",
      "IncCurrent_supply_CurrentSupply_1",
      "IncCurrent_guard_1",
-     "IncCurrent_guard_2",
+     "IncCurrent_cond_2",
+     "IncCurrent_guard_3",
      "DecCurrent_supply_CurrentSupply_1",
      "DecCurrent_guard_1",
      "IncIncoming_totalSupply_1",
@@ -28,7 +29,8 @@ theorem htlc_translated_pinned : Irismod.Gen.PureHtlc.translated =
      "IncIncoming_timeBasedSupplyLimit_1",
      "IncIncoming_supply_IncomingSupply_1",
      "IncIncoming_guard_1",
-     "IncIncoming_guard_2",
+     "IncIncoming_cond_2",
+     "IncIncoming_guard_3",
      "DecIncoming_supply_IncomingSupply_1",
      "DecIncoming_guard_1",
      "IncOutgoing_supply_OutgoingSupply_1",
@@ -38,10 +40,11 @@ theorem htlc_translated_pinned : Irismod.Gen.PureHtlc.translated =
      "createHTLT_guard_1",
      "createHTLT_guard_2",
      "createHTLT_guard_3",
-     "createHTLT_guard_4",
+     "createHTLT_cond_4",
      "createHTLT_guard_5",
      "createHTLT_guard_6",
      "createHTLT_guard_7",
+     "createHTLT_guard_8",
      "UpdateWindow_newTimeElapsed_1",
      "UpdateWindow_supply_TimeElapsed_1",
      "UpdateWindow_supply_TimeElapsed_2",
@@ -59,10 +62,11 @@ def incIncomingVerdict (d : String) (cur inc tl n lim tbl : Int) (timeLimited : 
   IncIncoming_supplyLimit_1 ⟨d, n⟩ lim >>= fun sl =>
   IncIncoming_guard_1 sl tot ⟨d, n⟩ >>= fun g1 =>
   if g1 then some false else
-  if timeLimited then
+  IncIncoming_cond_2 timeLimited >>= fun tl? =>
+  if tl? then
     IncIncoming_timeLimitedTotalSupply_1 ⟨d, tl⟩ ⟨d, inc⟩ >>= fun tlt =>
     IncIncoming_timeBasedSupplyLimit_1 ⟨d, n⟩ tbl >>= fun tsl =>
-    IncIncoming_guard_2 tsl tlt ⟨d, n⟩ >>= fun g2 => some (!g2)
+    IncIncoming_guard_3 tsl tlt ⟨d, n⟩ >>= fun g2 => some (!g2)
   else some true
 
 /-- … is the model's `incomingFits`, for every asset, supply record and amount inside the `sdkmath.Int` range -/
@@ -70,8 +74,8 @@ theorem incomingFits_eq_translation (a : Asset) (sup : Supply) (n : Nat) (hd : V
     (h1 : sup.current + sup.incoming + n < pow2_256) (h2 : sup.tlCurrent + sup.incoming + n < pow2_256) :
     incIncomingVerdict a.denom sup.current sup.incoming sup.tlCurrent n a.limit a.tbLimit a.timeLimited =
       some (incomingFits a sup n) := by
-  unfold incIncomingVerdict IncIncoming_totalSupply_1 IncIncoming_supplyLimit_1 IncIncoming_guard_1
-    IncIncoming_timeLimitedTotalSupply_1 IncIncoming_timeBasedSupplyLimit_1 IncIncoming_guard_2 incomingFits
+  unfold incIncomingVerdict IncIncoming_totalSupply_1 IncIncoming_supplyLimit_1 IncIncoming_guard_1 IncIncoming_cond_2
+    IncIncoming_timeLimitedTotalSupply_1 IncIncoming_timeBasedSupplyLimit_1 IncIncoming_guard_3 incomingFits
   have e1 : sup.current + sup.incoming < pow2_256 := by omega
   have e2 : sup.tlCurrent + sup.incoming < pow2_256 := by omega
   rw [NewCoin_nat _ _ hd, NewCoin_nat _ _ hd]
@@ -85,17 +89,18 @@ def incCurrentVerdict (d : String) (cur tl n lim tbl : Int) (timeLimited : Bool)
   IncCurrent_supplyLimit_1 ⟨d, n⟩ lim >>= fun sl =>
   IncCurrent_guard_1 sl ⟨d, cur⟩ ⟨d, n⟩ >>= fun g1 =>
   if g1 then some false else
-  if timeLimited then
+  IncCurrent_cond_2 timeLimited >>= fun tl? =>
+  if tl? then
     IncCurrent_timeBasedSupplyLimit_1 ⟨d, n⟩ tbl >>= fun tsl =>
-    IncCurrent_guard_2 tsl ⟨d, tl⟩ ⟨d, n⟩ >>= fun g2 => some (!g2)
+    IncCurrent_guard_3 tsl ⟨d, tl⟩ ⟨d, n⟩ >>= fun g2 => some (!g2)
   else some true
 
 theorem currentFits_eq_translation (a : Asset) (sup : Supply) (n : Nat) (hd : ValidateDenom a.denom = true)
     (h1 : sup.current + n < pow2_256) (h2 : sup.tlCurrent + n < pow2_256) :
     incCurrentVerdict a.denom sup.current sup.tlCurrent n a.limit a.tbLimit a.timeLimited =
       some (currentFits a sup n) := by
-  unfold incCurrentVerdict IncCurrent_supplyLimit_1 IncCurrent_guard_1 IncCurrent_timeBasedSupplyLimit_1
-    IncCurrent_guard_2 currentFits
+  unfold incCurrentVerdict IncCurrent_supplyLimit_1 IncCurrent_guard_1 IncCurrent_cond_2 IncCurrent_timeBasedSupplyLimit_1
+    IncCurrent_guard_3 currentFits
   rw [NewCoin_nat _ _ hd, NewCoin_nat _ _ hd]
   hsimp [h1, h2]
   by_cases g1 : a.limit < sup.current + n <;> hsimp [g1]
@@ -161,8 +166,8 @@ theorem createHTLT_guards_eq_model (d : String) (n ts timeLock time : Nat) (a : 
     (hfee : a.fixedFee + a.minSwap < pow2_256) :
     createHTLT_guard_2 ⟨d, n⟩ a.minSwap a.maxSwap = some (decide (n < a.minSwap ∨ a.maxSwap < n)) ∧
     createHTLT_guard_3 ts ((unix time : Int) - 900) ((unix time : Int) + 1800) = some (tsOutOfRange time ts) ∧
-    createHTLT_guard_6 timeLock a.minLock a.maxLock = some (decide (timeLock < a.minLock ∨ a.maxLock < timeLock)) ∧
-    createHTLT_guard_7 ⟨d, n⟩ a.fixedFee a.minSwap = some (decide (n < a.fixedFee + a.minSwap)) := by
+    createHTLT_guard_7 timeLock a.minLock a.maxLock = some (decide (timeLock < a.minLock ∨ a.maxLock < timeLock)) ∧
+    createHTLT_guard_8 ⟨d, n⟩ a.fixedFee a.minSwap = some (decide (n < a.fixedFee + a.minSwap)) := by
   refine ⟨?_, ?_, ?_, ?_⟩
   · unfold createHTLT_guard_2
     simp only [Int_LT, Int_GT, Int.ofNat_lt]
@@ -175,9 +180,9 @@ theorem createHTLT_guards_eq_model (d : String) (n ts timeLock time : Nat) (a : 
           (((unix time : Int) + 1800) % 18446744073709551616).toNat ≤ ts) ↔
          ((unix time < 900 ∨ ts < unix time - 900) ∨ unix time + 1800 ≤ ts)
     omega
-  · unfold createHTLT_guard_6
-    by_cases h1 : timeLock < a.minLock <;> by_cases h2 : a.maxLock < timeLock <;> simp [h1, h2]
   · unfold createHTLT_guard_7
+    by_cases h1 : timeLock < a.minLock <;> by_cases h2 : a.maxLock < timeLock <;> simp [h1, h2]
+  · unfold createHTLT_guard_8
     simp only [Int_Add_nat, hfee, if_true, obind_some, Int_LT, Int.ofNat_lt]
 
 end Irismod.Props.Tie
